@@ -26,10 +26,10 @@ import (
 
 const wBase = 100
 
-func isW(v int) bool           { return v >= wBase }
-func wbit(v, pos int) bool     { return (v-wBase)>>uint(pos)&1 == 1 }
-func wild(bits int) int        { return wBase + bits }
-func small(v int) int          { return ((v % 10) + 10) % 10 } // keeps ordinary values below the wildcards
+func isW(v int) bool       { return v >= wBase }
+func wbit(v, pos int) bool { return (v-wBase)>>uint(pos)&1 == 1 }
+func wild(bits int) int    { return wBase + bits }
+func small(v int) int      { return ((v % 10) + 10) % 10 } // keeps ordinary values below the wildcards
 
 // env is the budget of one run (one construction + consumption of a pipeline).
 type env struct {
